@@ -1,6 +1,6 @@
 (* KvExpiry.v - removal by expiry is a removal: what the row checker of C05 says of Delete holds of every
    document that a firing of the expiry timer removes, in every history of the model.               *)
-From Rosmar Require Import Base Json Crc Hlc Kv Store Trace KvTac KvLift KvFrame KvC05 ExpProofs KvC14Trace.
+From Rosmar Require Import Base Json Crc Hlc Kv Store Trace KvTac KvLift KvFrame KvC05 ExpProofs KvTrace Sweep KvC14Trace.
 From Coq Require Import Permutation.
 
 Lemma sys_only_idem x : xattrs_system_only (xattrs_system_only x) = xattrs_system_only x.
@@ -97,37 +97,7 @@ Proof.
   exact H.
 Qed.
 
-Lemma expiry_step_sound_C05 s x o colls keys xn n0 n1 : store_ok s -> tables_ok s -> wf_sop o ->
-  let res := sstep s x o in
-  chk_step_expiry chk_row_C05 (with_next (snap s colls keys xn) n0) x o
-    (mkOstep (sr_resp res) (fevents_of (sr_events res)) (sr_dump res) (with_next (snap (sr_store res) colls keys xn) n1)) = true.
-Proof.
-  intros Hs Ht Hwf. cbv zeta. destruct o; try reflexivity.
-  destruct (expire_step_facts s x Ht) as [Hid Habs]. cbv zeta in *.
-  unfold chk_step_expiry. cbn [os_snap os_live with_next sn_rows].
-  apply forallb_forall. intros e He.
-  destruct e as [[c k] ob]. cbn [fst snd] in *.
-  apply In_snap_rows in He. cbn [fst snd] in He. destruct He as (cid & Ec & ->).
-  rewrite row_exp_obs.
-  destruct (get_doc s (cid, k)) as [r0|] eqn:Eg; [|reflexivity].
-  destruct ((0 <? r_exp r0) && (r_exp r0 <=? x_now x)) eqn:Ed; [|reflexivity].
-  apply andb_true_iff in Ed. destruct Ed as [E1 E2]. apply N.ltb_lt in E1. apply N.leb_le in E2.
-  destruct (look (c, k) (sn_rows (snap (sr_store (sstep s x SExpire)) colls keys xn))) as [o1|] eqn:El; [|reflexivity].
-  apply look_snap in El. destruct El as (cid' & Ec' & ->). rewrite Hid, Ec in Ec'. inversion Ec'; subst cid'.
-  assert (deleted_in (sr_store (sstep s x SExpire)) (cid, k) r0) as (r' & Hg' & cc & rv & ->).
-  { cbn [sstep]. pose proof (expire_colls_del x (map fst (s_colls s)) (cid, k) r0 s [] Ht) as D.
-    destruct (expire_colls s x (map fst (s_colls s)) []) as [s' evs]. cbn [fst sr_store] in *. apply D.
-    right. split; [exact (coll_id_in_ids s c cid Ec) | split; [exact Eg | split; assumption]]. }
-  rewrite Hg'. rewrite !view_of_obs_of. cbn [option_map].
-  destruct (get_doc_orow_ok s (cid, k) Hs) as [Ho Hc]. rewrite Eg in Ho, Hc.
-  apply c05_delete_rule; assumption.
-Qed.
 
-Theorem C05_expiry_sound c : wf_case c -> chk_expiry_kv chk_row_C05 (c, srun c) = true.
-Proof.
-  intros Hwf. unfold chk_expiry_kv, snap0, srun. cbn [fst snd].
-  apply (walk_sound_gen (chk_step_expiry chk_row_C05) expiry_step_sound_C05 c (sc_steps c) store0 0 store0_ok store0_tables_ok Hwf).
-Qed.
 
 (* ------------------------------------------------------------------------------------------ *)
 (* The general statement: a firing removes each due document exactly once - the row it leaves and the events
@@ -203,6 +173,16 @@ Proof.
   destruct (IH s1 acc1) as [C D]. rewrite C, D, A, B. split; reflexivity.
 Qed.
 
+Lemma expire_keys_chk_ids x cid keys : forall s acc,
+  coll_ids (fst (expire_keys_chk s x cid keys acc)) = coll_ids s /\ s_nextcoll (fst (expire_keys_chk s x cid keys acc)) = s_nextcoll s.
+Proof.
+  induction keys as [|k r IH]; intros s acc; cbn [expire_keys_chk]; [split; reflexivity|].
+  destruct (is_due (get_doc s (cid, k)) (x_now x)).
+  - destruct (IH (sr_store (kv_on s x cid k KDelete)) (acc ++ sr_events (kv_on s x cid k KDelete))) as [A B].
+    rewrite A, B, kv_on_ids, kv_on_nextcoll. split; reflexivity.
+  - destruct (IH (burn s x) acc) as [A B]. rewrite A, B. split; reflexivity.
+Qed.
+
 Lemma sstep_ids_pos s x o : ids_pos s -> ids_pos (sr_store (sstep s x o)).
 Proof.
   intros [Hn Hp]. destruct o; cbn [sstep].
@@ -224,6 +204,15 @@ Proof.
   - destruct (coll_id s coll); split; assumption.
   - destruct (coll_id s coll); split; assumption.
   - split; assumption.
+  - destruct (coll_id s wc); [|split; assumption].
+    pose proof (expire_colls_ids x (ids_before (s_colls s) wc) s []) as [A B].
+    destruct (expire_colls s x (ids_before (s_colls s) wc) []) as [s' evs]. cbn [fst sr_store] in *. split; [rewrite B; exact Hn | rewrite A; exact Hp].
+  - destruct (coll_id s wc) as [w|]; [|split; assumption].
+    pose proof (expire_keys_chk_ids x w keys s []) as [A1 B1].
+    destruct (expire_keys_chk s x w keys []) as [s1 evs1]. cbn [fst] in *.
+    pose proof (expire_colls_ids x (ids_after (s_colls s) wc) s1 evs1) as [A B].
+    destruct (expire_colls s1 x (ids_after (s_colls s) wc) evs1) as [s2 evs2]. cbn [fst sr_store] in *.
+    split; [rewrite B, B1; exact Hn | rewrite A, A1; exact Hp].
 Qed.
 
 (* ---- each due document is removed exactly once ---- *)
@@ -350,6 +339,131 @@ Proof.
   rewrite andb_comm. destruct ((c' =? cid) && String.eqb k' k); cbn [map]; rewrite IH by (intros e He; apply Hp; right; exact He); reflexivity.
 Qed.
 
+(* ---- the removals of an interrupted sweep, exactly ---- *)
+Lemma expire_keys_chk_notdue x cid keys k' r : forall s acc, get_doc s k' = Some r -> ~ due (x_now x) r ->
+  get_doc (fst (expire_keys_chk s x cid keys acc)) k' = Some r
+  /\ evs_of k' (snd (expire_keys_chk s x cid keys acc)) = evs_of k' acc.
+Proof.
+  induction keys as [|k0 rest IH]; intros s acc Hg Hnd; cbn [expire_keys_chk]; [split; [exact Hg | reflexivity]|].
+  destruct (is_due (get_doc s (cid, k0)) (x_now x)) eqn:Ed.
+  - assert (k' <> (cid, k0)) as Hne.
+    { intros ->. rewrite Hg in Ed. apply is_due_spec in Ed. contradiction. }
+    destruct (IH (sr_store (kv_on s x cid k0 KDelete)) (acc ++ sr_events (kv_on s x cid k0 KDelete))) as [A B].
+    { rewrite kv_on_frame; [exact Hg | exact Hne]. } { exact Hnd. }
+    rewrite A, B, evs_of_app, evs_of_kv_on_other by exact Hne. rewrite app_nil_r. split; reflexivity.
+  - exact (IH (burn s x) acc Hg Hnd).
+Qed.
+
+Lemma expire_keys_chk_untouched x cid keys k' : forall s acc, (fst k' <> cid \/ ~ In (snd k') keys) ->
+  get_doc (fst (expire_keys_chk s x cid keys acc)) k' = get_doc s k'
+  /\ evs_of k' (snd (expire_keys_chk s x cid keys acc)) = evs_of k' acc.
+Proof.
+  induction keys as [|k0 rest IH]; intros s acc H; cbn [expire_keys_chk]; [split; reflexivity|].
+  assert (k' <> (cid, k0)) as Hne.
+  { intros ->. cbn in H. destruct H as [H|H]; [apply H; reflexivity | apply H; left; reflexivity]. }
+  assert (fst k' <> cid \/ ~ In (snd k') rest) as H' by (destruct H as [H|H]; [left; exact H | right; intros Hin; apply H; right; exact Hin]).
+  destruct (is_due (get_doc s (cid, k0)) (x_now x)).
+  - destruct (IH (sr_store (kv_on s x cid k0 KDelete)) (acc ++ sr_events (kv_on s x cid k0 KDelete)) H') as [A B].
+    rewrite A, B, evs_of_app, evs_of_kv_on_other by exact Hne. rewrite app_nil_r. split; [apply kv_on_frame; exact Hne | reflexivity].
+  - exact (IH (burn s x) acc H').
+Qed.
+
+Lemma del_res_row x c1 r : exists r', kr_row (del_res x c1 r) = Some r' /\ r_exp r' = 0.
+Proof. unfold del_res. cbn. eexists. split; reflexivity. Qed.
+
+Lemma expire_keys_chk_exact x cid keys k r : forall s acc, In k keys -> get_doc s (cid, k) = Some r -> due (x_now x) r ->
+  exists c1,
+    get_doc (fst (expire_keys_chk s x cid keys acc)) (cid, k) = kr_row (del_res x c1 r)
+    /\ evs_of (cid, k) (snd (expire_keys_chk s x cid keys acc)) = evs_of (cid, k) acc ++ map (fun e => (cid, k, e)) (kr_events (del_res x c1 r)).
+Proof.
+  induction keys as [|k0 rest IH]; intros s acc Hin Hg Hd; [destruct Hin|]. cbn [expire_keys_chk].
+  destruct (string_dec k k0) as [->|Hne].
+  - (* its turn: it is due, it is removed - and whatever comes after finds it without expiry *)
+    assert (is_due (get_doc s (cid, k0)) (x_now x) = true) as -> by (rewrite Hg; apply is_due_spec; exact Hd).
+    exists (hlc_now (s_high s) (x_clock x)).
+    destruct (del_res_row x (hlc_now (s_high s) (x_clock x)) r) as (r' & Hr' & He').
+    destruct (expire_keys_chk_notdue x cid rest (cid, k0) r' (sr_store (kv_on s x cid k0 KDelete)) (acc ++ sr_events (kv_on s x cid k0 KDelete))) as [A B].
+    { rewrite get_doc_kv_on, Hg. exact Hr'. }
+    { unfold due. lia. }
+    rewrite A, B, evs_of_app, evs_of_kv_on_same, Hr'. split; [reflexivity|].
+    unfold kv_on; cbv zeta; cbn [sr_events]. rewrite Hg. reflexivity.
+  - destruct Hin as [E|Hin]; [congruence|].
+    assert ((cid, k) <> (cid, k0)) as Hk by (intros E; inversion E; contradiction).
+    destruct (is_due (get_doc s (cid, k0)) (x_now x)).
+    + destruct (IH (sr_store (kv_on s x cid k0 KDelete)) (acc ++ sr_events (kv_on s x cid k0 KDelete)) Hin) as (c1 & A & B).
+      { rewrite kv_on_frame; [exact Hg | exact Hk]. } { exact Hd. }
+      exists c1. rewrite A, B, evs_of_app, evs_of_kv_on_other by exact Hk. rewrite app_nil_r. split; reflexivity.
+    + exact (IH (burn s x) acc Hin Hg Hd).
+Qed.
+
+Lemma expire_keys_chk_events_in x cid keys : forall s acc e, In e (snd (expire_keys_chk s x cid keys acc)) -> In e acc \/ fst (fst e) = cid.
+Proof.
+  induction keys as [|k r IH]; intros s acc e H; cbn [expire_keys_chk] in H; [left; exact H|].
+  destruct (is_due (get_doc s (cid, k)) (x_now x)); [|exact (IH _ _ _ H)].
+  apply IH in H. destruct H as [H|H]; [|right; exact H]. apply in_app_iff in H. destruct H as [H|H]; [left; exact H|].
+  right. apply kv_on_events_local in H. rewrite H. reflexivity.
+Qed.
+
+Lemma NoDup_ids_before cs wc : NoDup (map fst cs) -> NoDup (ids_before cs wc).
+Proof.
+  induction cs as [|d r IH]; intros H; cbn [ids_before]; [constructor|]. cbn [map] in H. inversion H as [|? ? Hn Hr]; subst.
+  destruct (String.eqb (fst (snd d)) wc); [constructor|]. constructor; [|apply IH; exact Hr].
+  intros Hin. apply Hn. exact (ids_before_in r wc _ Hin).
+Qed.
+Lemma NoDup_ids_after cs wc : NoDup (map fst cs) -> NoDup (ids_after cs wc).
+Proof.
+  induction cs as [|d r IH]; intros H; cbn [ids_after]; [constructor|]. cbn [map] in H. inversion H as [|? ? Hn Hr]; subst.
+  destruct (String.eqb (fst (snd d)) wc); [exact Hr | apply IH; exact Hr].
+Qed.
+
+(* a document that is due, and that the step of the sweep is about, is removed exactly once: the row it leaves and the
+   events posted for it are those of one Delete *)
+Lemma sweep_exact s x o k r : tables_ok s -> ids_pos s -> is_sweep o = true ->
+  get_doc s k = Some r -> due (x_now x) r -> takes s o k = true ->
+  let res := sstep s x o in
+  exists c1, get_doc (sr_store res) k = kr_row (del_res x c1 r)
+             /\ evs_of k (sr_events res) = map (fun e => (fst k, snd k, e)) (kr_events (del_res x c1 r))
+             /\ (forall e, In e (sr_events res) -> 1 <= fst (fst e)).
+Proof.
+  intros Ht Hpos Ho Hg Hd Htk. destruct k as [cid k]. cbn [fst snd]. cbv zeta.
+  assert (In cid (coll_ids s)) as Hcin.
+  { unfold get_doc in Hg. apply (alookup_In dkey_eqb dkey_eqb_spec) in Hg. exact (t_doc_cids s Ht _ Hg). }
+  destruct o; try discriminate; cbn [sstep takes fst snd] in *.
+  - pose proof (expire_colls_exact x (map fst (s_colls s)) cid k r s [] Ht (t_ids_nodup s Ht) Hcin Hg Hd) as (c1 & A & B).
+    pose proof (expire_colls_events_in x (map fst (s_colls s)) s []) as Hin.
+    destruct (expire_colls s x (map fst (s_colls s)) []) as [s' evs]. cbn [fst snd sr_store sr_events] in *.
+    exists c1. split; [exact A | split; [exact B|]]. intros e He. destruct (Hin e He) as [[]|H]. apply (proj2 Hpos). exact H.
+  - destruct (coll_id s wc) as [w|] eqn:Ew; cbn [is_some andb] in Htk; [|discriminate]. apply existsb_N_In in Htk.
+    pose proof (expire_colls_exact x (ids_before (s_colls s) wc) cid k r s [] Ht (NoDup_ids_before _ wc (t_ids_nodup s Ht)) Htk Hg Hd) as (c1 & A & B).
+    pose proof (expire_colls_events_in x (ids_before (s_colls s) wc) s []) as Hin.
+    destruct (expire_colls s x (ids_before (s_colls s) wc) []) as [s' evs]. cbn [fst snd sr_store sr_events] in *.
+    exists c1. split; [exact A | split; [exact B|]]. intros e He. destruct (Hin e He) as [[]|H]. apply (proj2 Hpos). exact (ids_before_in _ _ _ H).
+  - destruct (coll_id s wc) as [w|] eqn:Ew; [|discriminate].
+    destruct (coll_id_entry s wc w Ew) as (lcw & Hinw).
+    pose proof (ids_after_not_self (s_colls s) wc w lcw (t_ids_nodup s Ht) (t_names_nodup s Ht) Hinw) as Hself.
+    pose proof (coll_id_in_ids _ _ _ Ew) as Hwin.
+    destruct (expire_keys_chk_tables x w keys s [] Hwin Ht) as [Ht1 _].
+    pose proof (expire_keys_chk_events_in x w keys s []) as Hin1.
+    apply orb_true_iff in Htk. destruct Htk as [Htk|Htk].
+    + apply andb_true_iff in Htk. destruct Htk as [Hc Hk]. apply N.eqb_eq in Hc. subst cid. apply existsb_str_In in Hk.
+      destruct (expire_keys_chk_exact x w keys k r s [] Hk Hg Hd) as (c1 & A & B).
+      destruct (expire_keys_chk s x w keys []) as [s1 evs1]. cbn [fst snd] in *.
+      destruct (expire_colls_untouched x (ids_after (s_colls s) wc) (w, k) s1 evs1 Hself) as [C D].
+      pose proof (expire_colls_events_in x (ids_after (s_colls s) wc) s1 evs1) as Hin2.
+      destruct (expire_colls s1 x (ids_after (s_colls s) wc) evs1) as [s2 evs2]. cbn [fst snd sr_store sr_events] in *.
+      exists c1. rewrite C, D, A, B. split; [reflexivity | split; [reflexivity|]].
+      intros e He. destruct (Hin2 e He) as [H|H]; [destruct (Hin1 e H) as [[]|H']; rewrite H'; exact (proj2 Hpos w Hwin) | exact (proj2 Hpos _ (ids_after_in _ _ _ H))].
+    + apply existsb_N_In in Htk. assert (cid <> w) as Hne by (intros ->; exact (Hself Htk)).
+      destruct (expire_keys_chk_untouched x w keys (cid, k) s [] (or_introl Hne)) as [A B].
+      destruct (expire_keys_chk s x w keys []) as [s1 evs1]. cbn [fst snd] in *.
+      destruct (expire_colls_exact x (ids_after (s_colls s) wc) cid k r s1 evs1 Ht1 (NoDup_ids_after _ wc (t_ids_nodup s Ht)) Htk) as (c1 & C & D);
+        [rewrite A; exact Hg | exact Hd|].
+      pose proof (expire_colls_events_in x (ids_after (s_colls s) wc) s1 evs1) as Hin2.
+      destruct (expire_colls s1 x (ids_after (s_colls s) wc) evs1) as [s2 evs2]. cbn [fst snd sr_store sr_events] in *.
+      exists c1. rewrite C, D, B. split; [reflexivity | split; [reflexivity|]].
+      intros e He. destruct (Hin2 e He) as [H|H]; [destruct (Hin1 e H) as [[]|H']; rewrite H'; exact (proj2 Hpos w Hwin) | exact (proj2 Hpos _ (ids_after_in _ _ _ H))].
+Qed.
+
 Lemma expiry_step_sound rc : rc_sound rc -> forall s n x o colls keys xn, store_ok s -> tables_ok s -> wf_sop o -> ids_pos s ->
   let res := sstep s x o in
   let n' := next_after n s o res in
@@ -358,32 +472,41 @@ Lemma expiry_step_sound rc : rc_sound rc -> forall s n x o colls keys xn, store_
   /\ ids_pos (sr_store res).
 Proof.
   intros Hrc s n x o colls keys xn Hs Ht Hwf Hpos. cbv zeta. split; [|apply sstep_ids_pos; exact Hpos].
-  destruct o; try reflexivity.
-  destruct (expire_step_facts s x Ht) as [Hid Habs]. cbv zeta in *.
-  unfold chk_step_expiry. cbn [os_snap os_live with_next sn_rows].
+  destruct (is_sweep o) eqn:Ho; [|destruct o; try reflexivity; discriminate].
+  assert (chk_step_expiry rc (with_next (snap s colls keys xn) n) x o
+            (mkOstep (sr_resp (sstep s x o)) (fevents_of (sr_events (sstep s x o))) (sr_dump (sstep s x o))
+                     (with_next (snap (sr_store (sstep s x o)) colls keys xn) (next_after n s o (sstep s x o))))
+          = forallb (fun e =>
+                 let e0 := row_exp (snd e) in
+                 if (0 <? e0) && (e0 <=? x_now x) && sweep_takes (coll_names s) o (fst (fst e)) (snd (fst e)) then
+                   match look (fst e) (sn_rows (snap (sr_store (sstep s x o)) colls keys xn)) with
+                   | Some o1 =>
+                       let cid := coll_of_obs o1 0 in
+                       rc (snd (fst e)) cid x KDelete (view_of_obs (snd e)) ROk
+                          (filter (fun f => String.eqb (f_key f) (snd (fst e)) && (f_coll f =? cid)) (fevents_of (sr_events (sstep s x o))))
+                          (view_of_obs o1)
+                   | None => true
+                   end
+                 else true) (sn_rows (snap s colls keys xn))) as ->.
+  { unfold chk_step_expiry. cbn [os_snap os_live with_next sn_rows sn_colls]. rewrite snap_colls. destruct o; try discriminate; reflexivity. }
+  destruct (sweep_correct s x o Ht Ho) as (_ & _ & _ & Hid). cbv zeta in Hid.
   apply forallb_forall. intros e He.
   destruct e as [[c k] ob]. cbn [fst snd] in *.
   apply In_snap_rows in He. cbn [fst snd] in He. destruct He as (cid & Ec & ->).
-  rewrite row_exp_obs.
+  rewrite row_exp_obs, (sweep_takes_takes s o c cid k Ht Ec).
   destruct (get_doc s (cid, k)) as [r0|] eqn:Eg; [|reflexivity].
   destruct ((0 <? r_exp r0) && (r_exp r0 <=? x_now x)) eqn:Ed; [|reflexivity].
+  destruct (takes s o (cid, k)) eqn:Etk; [|reflexivity]. cbn [andb].
   apply andb_true_iff in Ed. destruct Ed as [E1 E2]. apply N.ltb_lt in E1. apply N.leb_le in E2.
-  destruct (look (c, k) (sn_rows (snap (sr_store (sstep s x SExpire)) colls keys xn))) as [o1|] eqn:El; [|reflexivity].
+  destruct (look (c, k) (sn_rows (snap (sr_store (sstep s x o)) colls keys xn))) as [o1|] eqn:El; [|reflexivity].
   apply look_snap in El. destruct El as (cid' & Ec' & ->). rewrite Hid, Ec in Ec'. inversion Ec'; subst cid'.
   pose proof (coll_id_in_ids s c cid Ec) as Hcin.
-  assert (exists c1, get_doc (sr_store (sstep s x SExpire)) (cid, k) = kr_row (del_res x c1 r0)
-                     /\ evs_of (cid, k) (sr_events (sstep s x SExpire)) = map (fun e => (cid, k, e)) (kr_events (del_res x c1 r0))
-                     /\ (forall e, In e (sr_events (sstep s x SExpire)) -> 1 <= fst (fst e))) as (c1 & Hg' & Hev & Hevpos).
-  { cbn [sstep].
-    pose proof (expire_colls_exact x (map fst (s_colls s)) cid k r0 s [] Ht (t_ids_nodup s Ht) Hcin Eg (conj E1 E2)) as (c1 & A & B).
-    pose proof (expire_colls_events_in x (map fst (s_colls s)) s []) as Hin.
-    destruct (expire_colls s x (map fst (s_colls s)) []) as [s' evs]. cbn [fst snd sr_store sr_events] in *.
-    exists c1. split; [exact A | split; [exact B|]]. intros e He. destruct (Hin e He) as [[]|H]. apply (proj2 Hpos). exact H. }
+  destruct (sweep_exact s x o (cid, k) r0 Ht Hpos Ho Eg (conj E1 E2) Etk) as (c1 & Hg' & Hev & Hevpos). cbv zeta in Hg', Hev, Hevpos. cbn [fst snd] in Hev.
   rewrite Hg'. rewrite !view_of_obs_of, coll_of_obs_of.
   unfold del_res in *. cbn [kstep do_remove with_resp kr_row] in Hg' |- *.
   rewrite (filter_feed_events cid k _ (proj2 Hpos cid Hcin) Hevpos), Hev.
-  destruct (get_doc_orow_ok s (cid, k) Hs) as [Ho Hc]. rewrite Eg in Ho, Hc.
-  pose proof (Hrc k (cid - 1) x c1 KDelete (Some r0) I Ho Hc) as H. cbv zeta in H.
+  destruct (get_doc_orow_ok s (cid, k) Hs) as [Ho' Hc]. rewrite Eg in Ho', Hc.
+  pose proof (Hrc k (cid - 1) x c1 KDelete (Some r0) I Ho' Hc) as H. cbv zeta in H.
   cbn [kstep do_remove with_resp kr_row kr_resp kr_events option_map] in H |- *.
   unfold fevents_of. rewrite map_map. cbn [fst snd]. exact H.
 Qed.
@@ -393,3 +516,6 @@ Proof.
   intros Hrc c Hwf. unfold chk_expiry_kv, snap0, srun. cbn [fst snd].
   apply (walk_sound_inv (chk_step_expiry rc) (fun s _ => ids_pos s) (expiry_step_sound rc Hrc) c (sc_steps c) store0 0 store0_ok store0_tables_ok Hwf ids_pos0).
 Qed.
+
+Theorem C05_expiry_sound c : wf_case c -> chk_expiry_kv chk_row_C05 (c, srun c) = true.
+Proof. exact (expiry_sound chk_row_C05 C05_row_sound c). Qed.
